@@ -33,7 +33,7 @@ from pathlib import Path
 
 import common
 import impl
-from props import c18_imports
+from props import c18_alias, c18_imports
 
 from rattr.models.context import Context
 from rattr.models.ir import FileIr, FunctionIr
@@ -293,22 +293,21 @@ CORPUS = [
 
 
 def write_project(root, files):
-    root.mkdir(parents=True, exist_ok=True)
-    for n, s in files.items():
-        (root / n).parent.mkdir(parents=True, exist_ok=True)
-        (root / n).write_text(s)
+    # a value {"symlink": target} is a symbolic link; `.c18_pythonpath` lists extra search path entries
+    c18_alias.write_project(root, files)
 
 
 # ------------------------------------------------------------------ harvest (in-process)
 
-def harvest(projdir, facts=False):
+def harvest(projdir, facts=False, orders=None):
     """Analyse target.py in-process. Returns dict of named objects or raises.
-    facts: also the module graph as the real locator / root contexts see it (c18_imports.graph_facts)."""
+    facts: also the module graph as the real locator / root contexts see it (c18_imports.graph_facts).
+    orders: also `make_cacheable_import_info` under forced set iteration orders (c18_alias.forced_set_orders)."""
     from rattr.analyser.file import parse_and_analyse_file
     from rattr.models.results.util import make_cacheable_results
     from rattr.results import generate_results_from_ir
 
-    with impl.in_dir(str(projdir)):
+    with impl.in_dir(str(projdir)), c18_alias.extra_sys_path(projdir):
         impl.reset_config(target=Path("target.py"))
         with impl.Tap():
             file_ir, import_irs, _stats = parse_and_analyse_file()
@@ -317,8 +316,9 @@ def harvest(projdir, facts=False):
             results = generate_results_from_ir(target_ir=file_ir, import_irs=import_irs)
             cache = make_cacheable_results(results, file_ir, import_irs)
             graph = c18_imports.graph_facts(file_ir.context, import_irs) if facts else None
+            forced = c18_alias.forced_set_orders(file_ir, import_irs, orders) if orders is not None else None
         post = OutputIrs(import_irs=import_irs, target_ir={"filename": "target.py", "ir": file_ir})
-    return {"pre": pre, "post": post, "results": results, "cacheable": cache, "graph": graph}
+    return {"pre": pre, "post": post, "results": results, "cacheable": cache, "graph": graph, "forced": forced}
 
 
 def trim_context(ctx, keep):
@@ -732,11 +732,68 @@ def has_dup_ids(kind, obj):
 # ------------------------------------------------------------------ CLI
 
 def cli(projdir, out, seed):
-    env = dict(os.environ)
-    env["PYTHONHASHSEED"] = str(seed)
+    env = c18_alias.cli_env(projdir, seed)
     p = subprocess.run([sys.executable, "-m", "rattr", "-o", out, "-w", "none", "target.py"], cwd=str(projdir),
                        env=env, capture_output=True, timeout=120)
     return p.returncode, p.stdout, p.stderr[-400:].decode("utf8", "replace")
+
+
+# ------------------------------------------------------------------ the import set of the cache document
+
+def _path_sorted(paths):
+    """sorted order under a key that separates any two recorded paths: as `Path` compares, or as `str` does"""
+    return (len(set(paths)) == len(paths)
+            and (paths == sorted(paths) or [Path(p) for p in paths] == sorted(Path(p) for p in paths)))
+
+
+def judge_import_set(res, label, files, cacheable, forced, root=""):
+    """Property oracle on the REAL `imports` list of a harvested cache object: (sorted) strictly increasing on
+    the recorded path; (set-order) the same list whatever order the set of infos is iterated in -- the set's
+    iteration order forced to chosen permutations (c18_alias.forced_set_orders), deterministic."""
+    res.evaluations += 1
+    real = [[str(i.filepath), i.filehash] for i in cacheable.imports]
+    case = {"project": files, "label": label, "output": "cacheable", "project_root": str(root)}
+    # how many members collide under the coarser keys (the reach of the generator)
+    import os.path
+    paths = [p for p, _ in real]
+    for name, key in (("resolved-path", lambda p, h: os.path.realpath(p)), ("filehash", lambda p, h: h),
+                      ("file-name", lambda p, h: os.path.basename(p)), ("casefold-path", lambda p, h: p.lower())):
+        ks = [key(p, h) for p, h in real]
+        worst = max((ks.count(k) for k in ks), default=0)
+        res.count(f"import-set:max-members-with-equal-{name}={min(worst, 4)}{'+' if worst > 4 else ''}")
+    res.count(f"import-set:size={min(len(real), 8)}{'+' if len(real) > 8 else ''}")
+    if not _path_sorted(paths):
+        res.violations.append({"signature": "cacheable-imports-not-strictly-sorted-on-filepath",
+                               "case": case, "detail": {"imports": real}})
+    else:
+        res.count("import-set:strictly-sorted-on-filepath")
+    if forced is None:
+        return
+    if "unavailable" in forced:
+        res.count("import-set:forced-order:unavailable")
+        res.extra["forced_order_unavailable"] = forced["unavailable"]
+        return
+    if not forced["effective"]:
+        res.count("import-set:forced-order:ineffective")
+        return
+    if forced["base"] != real:
+        res.internal_errors.append({"what": "make_cacheable_import_info called twice on one analysis gives two lists",
+                                    "case": case, "a": real, "b": forced["base"]})
+        return
+    outs = {}
+    for perm, lst in forced["runs"]:
+        outs.setdefault(common.canon(lst), (perm, lst))
+    if len(outs) == 1 and next(iter(outs.values()))[1] == real:
+        res.count(f"import-set:forced-order:identical-under-{len(forced['runs'])}-orders")
+        return
+    (pa, la), (pb, lb) = (list(outs.values()) + [(None, real)])[:2]
+    if sorted(map(common.canon, la)) == sorted(map(common.canon, lb)):
+        sig = "cacheable-order-depends-on-set-order:unsorted-collection:imports"
+    else:
+        sig = "cacheable-imports-depend-on-set-order:members-differ"
+    res.violations.append({"signature": sig, "case": {**case, "set_iteration_order_a": pa, "set_iteration_order_b": pb},
+                           "detail": {"imports_a": la, "imports_b": lb,
+                                      "how": "make_cacheable_import_info with hash(member) := rank in the given order"}})
 
 
 # ------------------------------------------------------------------ run
@@ -751,7 +808,14 @@ def run(tier, seed, build):
                 "CacheableResults; (c) import-graph projects (fixed corpus + generated: depth 2-3, fan-out 2-4 at each level "
                 "below the target, diamonds, cross-level and sibling edges, cycles, a package, 8 import spellings, "
                 "same-named classes in sibling modules): harvested like (a), run through the real CLI (-o ir, results, "
-                "cacheable) and an in-process worker under >= 6 / 8 hash seeds, and through the model's import BFS. "
+                "cacheable) and an in-process worker under >= 6 / 8 hash seeds, and through the model's import BFS; "
+                "(d) import SETS with colliding members (c18_alias: one file under 3-4 names through file links, "
+                "directory links, links to a file outside the search path; byte-identical copies; equal file names "
+                "in sibling packages; names differing in case; a package directory that is also a search path "
+                "entry -- the names imported by the target, a followed import at depth 1-2, or both, 6 import "
+                "spellings): like (c), plus make_cacheable_import_info under forced set iteration orders "
+                "(deterministic) and the real CLI with -o cacheable -C <file> (stdout and the cache file) under "
+                "8 hash seeds. "
                 "non-trivial = distinct document with >= 1 non-empty collection")
     rng = random.Random(seed)
     if tier == "quick":
@@ -759,9 +823,14 @@ def run(tier, seed, build):
         # import graphs: NGRAPH projects (fixed corpus first), all through the in-process worker under
         # NWSEEDS hash seeds, the first NGCLI through the real CLI (3 outputs) under NGSEEDS hash seeds
         NGRAPH, NGCLI, NGSEEDS, NWSEEDS = 16, 4, 6, 8
+        # import sets with colliding members (c18_alias): NALIAS projects (fixed corpus first) through the
+        # harvest, the forced set orders, the worker and the model; NACLI of them through the real CLI with
+        # `-o cacheable -C <file>` under NASEEDS hash seeds
+        NALIAS, NACLI, NASEEDS = 11, 4, 8
     else:
         NPROJ, NCLI, NSEEDS, NSYN, NPERM, NFULL = 240, 40, 16, 4000, 5, 12
         NGRAPH, NGCLI, NGSEEDS, NWSEEDS = 80, 20, 12, 16
+        NALIAS, NACLI, NASEEDS = 48, 16, 12
     tmp = Path(tempfile.mkdtemp(prefix="c18_"))
     objects = []  # (kind, label, obj, source)
     projects = []
@@ -813,6 +882,8 @@ def run(tier, seed, build):
         phase("harvest")
         # ---- (a2) import graphs of depth >= 2 (fan-out 2..4 below the target, diamonds, cycles, packages)
         grng = random.Random(f"import-graph:{seed}")
+        arng = random.Random(f"import-alias:{seed}")
+        gspecs = []
         for gi in range(NGRAPH):
             if gi < len(c18_imports.CORPUS):
                 glabel, gfiles = c18_imports.CORPUS[gi]
@@ -820,9 +891,22 @@ def run(tier, seed, build):
             else:
                 gfiles, gmeta = c18_imports.gen_import_graph(grng, gi)
                 glabel = f"gen{gi}"
+            gspecs.append((glabel, gfiles, gmeta))
+        # (a3) import SETS with colliding members: one file under several names (links), equal content, equal
+        # file names, ... (c18_alias): same pipeline, plus forced set orders and `-o cacheable -C <file>`
+        for ai in range(NALIAS):
+            if ai < len(c18_alias.CORPUS):
+                glabel, gfiles = c18_alias.CORPUS[ai]
+                gmeta = {"corpus": glabel, "depth": "alias", "features": [glabel.split(":in-")[0]]}
+            else:
+                gfiles, gmeta = c18_alias.gen_alias_project(arng, ai)
+                glabel = f"alias:gen{ai}"
+            gspecs.append((glabel, gfiles, gmeta))
+        orders = c18_alias.standard_orders(random.Random(f"set-order:{seed}"))
+        for gi, (glabel, gfiles, gmeta) in enumerate(gspecs):
             pd = tmp / f"g{gi}"
             write_project(pd, gfiles)
-            out = impl.outcome_of(harvest, pd, True)
+            out = impl.outcome_of(harvest, pd, True, orders)
             if out[0] != "ok":
                 res.count(f"graph:harvest:{out[0]}:{out[1]}")
                 res.skipped_outside_fragment += 1
@@ -843,8 +927,10 @@ def run(tier, seed, build):
             gprojects.append({"pd": pd, "files": gfiles, "label": glabel, "meta": gmeta, "graph": h["graph"],
                               "post": trim_outputirs(h["post"]), "pre": trim_outputirs(h["pre"]), "keys": keys,
                               "cacheable": h["cacheable"]})
-            objects.append(("outputirs", f"g{gi}:post:trim", trim_outputirs(h["post"]), gfiles["target.py"]))
-            objects.append(("results", f"g{gi}:results", h["results"], gfiles["target.py"]))
+            judge_import_set(res, glabel, gfiles, h["cacheable"], h["forced"], pd)
+            if not glabel.startswith("alias:"):
+                objects.append(("outputirs", f"g{gi}:post:trim", trim_outputirs(h["post"]), gfiles["target.py"]))
+                objects.append(("results", f"g{gi}:results", h["results"], gfiles["target.py"]))
             objects.append(("cacheable", f"g{gi}:cacheable", h["cacheable"], gfiles["target.py"]))
         phase("graph-harvest")
 
@@ -869,6 +955,14 @@ def run(tier, seed, build):
         worker_futs = [(s, executor.submit(c18_imports.run_worker, s, tmp / f"worker_{s}.json", [g["pd"] for g in gprojects]))
                        for s in range(NWSEEDS)] if gprojects else []
         cli_futs = [executor.submit(cli, *j) for j in jobs]
+        apick = [g for g in gprojects if g["label"] in ("alias:symlink-file", "alias:symlink-dir")]
+        agen = [g for g in gprojects if g["label"].startswith("alias:gen")]
+        arest = [g for g in gprojects if g["label"].startswith("alias:") and g not in apick and g not in agen]
+        if arest:  # the rest of the fixed corpus takes turns (by check seed)
+            arest = arest[seed % len(arest):] + arest[:seed % len(arest)]
+        apick = (apick + agen[:1] + arest + agen[1:])[:NACLI]
+        ajobs = [(g, s) for g in apick for s in range(NASEEDS)]
+        acli_futs = [executor.submit(c18_alias.cli_cache, g["pd"], s) for g, s in ajobs]
 
         # ---- (b) synthesise
         impl.reset_config()
@@ -1147,6 +1241,33 @@ def run(tier, seed, build):
         for (pd, out), runs in by.items():
             judge_seed_runs(files_of[pd], out, f"python -m rattr -o {out} -w none target.py", runs,
                             "cli:graph" if pd in gdirs else "cli")
+        # `-o cacheable -C <file>`: stdout and the written cache file, each across the hash seeds, and against
+        # each other
+        aby = {}
+        for (g, s), r in zip(ajobs, [f.result() for f in acli_futs]):
+            aby.setdefault(g["label"], (g, []))[1].append((s, r))
+        for label, (g, runs) in aby.items():
+            cmd = "python -m rattr -o cacheable -C <fresh file> -w none target.py"
+            judge_seed_runs(g["files"], "cacheable", cmd + "  [stdout]", [(s, (r[0], r[1], r[3])) for s, r in runs],
+                            "cli:alias")
+            if all(r[0] == 0 for _, r in runs):
+                if any(r[2] is None for _, r in runs):
+                    res.violations.append({"signature": "cache-file-not-written", "case": {"project": g["files"], "cmd": cmd}})
+                    continue
+                judge_seed_runs(g["files"], "cache-file", cmd + "  [the file]", [(s, (0, r[2], r[3])) for s, r in runs],
+                                "cli:alias")
+                for s, r in runs:
+                    try:
+                        same = pairs_loads(r[1]) == pairs_loads(r[2])
+                    except Exception:  # noqa  (invalid JSON is reported by judge_seed_runs)
+                        same = True
+                    if not same:
+                        res.violations.append({"signature": "cache-file-differs-from-stdout-document",
+                                               "case": {"project": g["files"], "cmd": cmd, "seeds": [s]}})
+                        break
+                else:
+                    res.count("cli:alias:cache-file==stdout-document")
+        res.extra["cli_runs_cache_file"] = len(ajobs)
         res.extra["cli_runs"] = len(jobs)
         res.extra["hash_seeds"] = len(seeds)
         res.extra["hash_seeds_import_graphs_cli"] = len(gseeds)
@@ -1220,7 +1341,18 @@ def run(tier, seed, build):
             else:
                 res.count("corr:ir-document:agree")
             real_imports = [[str(i.filepath), i.filehash] for i in g["cacheable"].imports]
-            if mo["cache_imports"] != real_imports:
+            all_paths = [i[0] for l in [g["graph"]["cacheInfos"]["target"]] + [v for _, v in g["graph"]["cacheInfos"]["modules"]]
+                         for i in l if i is not None]
+            if g["graph"].get("recordedNotOrigin"):
+                # model `infoFromFile`: the recorded path is the module spec's origin as given
+                res.disagreements.append({"case": case, "what": "CacheableImportInfo.filepath is not Path(spec.origin) as given",
+                                          "impl": g["graph"]["recordedNotOrigin"][:4]})
+            elif sorted(set(all_paths)) != [str(q) for q in sorted({Path(q) for q in all_paths})]:
+                # the model orders paths as strings, `Path` component-wise: they differ only when a directory
+                # name is a proper prefix of a sibling's and the next character sorts before '/'
+                res.count("corr:cache-imports:skipped:str-order!=Path-order")
+                res.skipped_outside_fragment += 1
+            elif mo["cache_imports"] != real_imports:
                 res.disagreements.append({"case": case, "what": "cacheable imports list", "model": mo["cache_imports"],
                                           "impl": real_imports})
             else:
@@ -1249,6 +1381,9 @@ def run(tier, seed, build):
         "[interp] 'compare equal' is Python == on the rattr objects (attrs eq: token and location excluded; sets and dicts order-insensitive)",
         "[interp] the order of the import_irs dict (filled by the import BFS) and of the context symbol table (insertion order) is part of the analysis: no hook sorts them. The import_irs order is modelled (Imports.bfs on the module graph the real locator and root contexts give, imports of a file in symbol-table order; C18_importirs_in_bfs_order, C18_irdocument_canonical) and tied to the code by tieA_import_queue and by op ir_document (model BFS order == key order of the real import_irs in this process and under every worker hash seed); hash-seed independence itself is observed end-to-end: real CLI and an in-process worker, >= 6 / 8 hash seeds, import graphs of depth 2-3 with fan-out 2-4 below the target",
         "the module graph (which module an import symbol resolves to, origins, blacklist / pip / stdlib verdicts, the Import symbols of each root context in symbol-table order) and the CacheableImportInfo of each import symbol are per-case parameters computed by the real code",
+        "the cache document's `imports`: the model sorts the recorded paths as STRINGS, the code as `Path`s (component-wise; pinned by tieA_cache_sort_key probe:order); the two orders agree unless a directory name is a proper prefix of a sibling's name and the next character sorts before '/' (space ! \" # $ % & ' ( ) * + , - .): such import sets are outside the compared fragment (counted `corr:cache-imports:skipped:str-order!=Path-order`; none is generated). The recorded path is the module spec's origin as given, never resolved (model `infoFromFile`; checked per case in graph_facts), the hash a function of that path (the project is not written to during a run)",
+        "[interp] 'sorted order' for the `imports` list = strictly increasing on the recorded `filepath` (as `Path` or as `str`): a list ordered on another attribute is reported `cacheable-imports-not-strictly-sorted-on-filepath`",
+        "forced set iteration order: a CPython set of < 19 members with distinct small non-negative hashes iterates in ascending hash order; members are made through rattr.models.results.util.CacheableImportInfo.from_file, replaced for the call by a subclass whose hash is the member's rank (when the code no longer goes through that name the channel reports `import-set:forced-order:ineffective` and gives no verdict; the hash-seed channels remain)",
         "model `structure` is claimed only for documents the serialiser emits (every key present, declared scalar types)",
         "json.dumps is PROVED injective on the model's JSON values (C18_json_printer_injective) and the sort key (name, json.dumps(member, sort_keys=True)) is proved to separate the members of every set (sortKeyInj_of_isSet); the remaining hypothesis of C18_ir_canonical is the data-type invariant that a member list stands for a Python set (no two members ==, kwargs compared as a frozendict), evaluated by the model on every object (distribution keys hyp:IsSet:holds, hyp:SortKeyInj:holds), a failure is an internal error",
         "model strings are lists of Unicode scalar values: a Python str holding lone surrogates is outside the printer theorem (json.dumps prints chr(0xd83d)+chr(0xde00) and chr(0x1f600) alike)",
@@ -1298,12 +1433,28 @@ def replay(path):
     print(json.dumps(j, indent=1)[:20000])
     case = j.get("case", {})
     if "project" in case:
-        tmp = Path(tempfile.mkdtemp(prefix="c18_replay_"))
+        import hashlib
+        tmp = Path(os.path.realpath(tempfile.mkdtemp(prefix="c18_replay_")))
         try:
             write_project(tmp, case["project"])
+            if "set_iteration_order_a" in case:
+                # the in-process channel: make_cacheable_import_info under the two forced set orders
+                old = case.get("project_root", "")
+                reloc = lambda l: [str(tmp) + p[len(old):] if old and p.startswith(old) else p for p in l]  # noqa: E731
+                perms = [reloc(case[k]) for k in ("set_iteration_order_a", "set_iteration_order_b") if case.get(k)]
+                h = harvest(tmp, False, lambda paths: [[p for p in perm if p in paths] + [p for p in paths if p not in perm]
+                                                       for perm in perms])
+                for perm, lst in h["forced"]["runs"]:
+                    print("set iteration order:", [Path(p).name for p in perm])
+                    print("  imports:", [Path(p).name for p, _ in lst])
+                return 0
             for s in case.get("seeds", [0, 1, 2, 3]):
+                if "-C" in case.get("cmd", ""):
+                    rc, out, data, err = c18_alias.cli_cache(tmp, s, "replay")
+                    print(f"PYTHONHASHSEED={s} exit={rc} stdout md5={hashlib.md5(out).hexdigest()} "
+                          f"cache file md5={hashlib.md5(data or b'').hexdigest()}")
+                    continue
                 rc, out, err = cli(tmp, case["output"], s)
-                import hashlib
                 print(f"PYTHONHASHSEED={s} exit={rc} md5={hashlib.md5(out).hexdigest()}")
         finally:
             shutil.rmtree(tmp, ignore_errors=True)
